@@ -19,7 +19,7 @@ def main():
     if ck.thorough():
         fams = [f.replace(".cfg", "-t.cfg") if os.path.exists(os.path.join(vf.SPEC, "cfg", f.replace(".cfg", "-t.cfg"))) else f for f in fams]
         fams += [f for f in ["ScanWalk-F6-mixed-t.cfg"] if os.path.exists(os.path.join(vf.SPEC, "cfg", f))]
-    modes = ["stream/plain", "fallback/nasty", "real/nasty", "wide/plain"]
+    modes = ["stream/plain", "fallback/nasty", "real/nasty", "wide/plain", "stream/blank"]
     scanwalk.run_family(ck, fams, modes)
     ck.cov["exhaustive"] = True
     ck.cov["rule"] = ("every scenario (tree over a 10-slot path universe - 12 slots down to a/b/c/f in the deep family - with .gitignore files at every level, skip list/regex/glob, gitignore atoms, "
